@@ -1069,6 +1069,9 @@ Record expect := mkExpect {
 
 Definition close (a b : Q) : bool :=
   Qle_bool (Qabs (a - b)) ((1 # 1000000000) * Qabs b + (1 # 1000000000000000000000000000000)).
+(* first guesses are sums with cancellation: absolute floor 1e-12 *)
+Definition closeAbs (a b : Q) : bool :=
+  Qle_bool (Qabs (a - b)) ((1 # 1000000000) * Qabs b + (1 # 1000000000000)).
 Fixpoint all2 {A B} (f : A -> B -> bool) (a : list A) (b : list B) : bool :=
   match a, b with
   | [], [] => true
@@ -1128,7 +1131,7 @@ Definition disagreements (r : run) (e : expect) : list nat :=
       chk 11%nat (Qeq_bool (o_vmin o) (x_vmin e)) ++
       chk 12%nat (all2 Qeq_bool (map ev_v (o_trace o)) (x_traceV e)) ++
       chk 15%nat (all2 close (map ev_atol (o_trace o)) (x_traceAtol e)) ++
-      chk 16%nat (all2 (fun g l => all2 close (g_widths g ++ g_offsets g) l)
+      chk 16%nat (all2 (fun g l => all2 closeAbs (g_widths g ++ g_offsets g) l)
                        (map ev_guess (o_trace o)) (x_traceGuess e)) ++
       chk 17%nat (Bool.eqb (st_tprofOk (o_state o)) (fst (x_flags e))
                   && Bool.eqb (st_pressOk (o_state o)) (snd (x_flags e))) ++
